@@ -4,7 +4,7 @@ namespace SdnsVerif.Gen.C11
 def query_timeout_default_ms : Nat := 10000
 def regroup_limit : Nat := 1
 def rw_table : List (List Nat) := [[0, 1, 0, 1], [0, 0, 0, 0], [0, 1, 0, 1], [0, 1, 0, 1], [0, 1, 0, 1], [0, 0, 0, 0], [0, 1, 0, 1], [0, 0, 0, 0], [1, 0, 1, 1], [1, 0, 1, 1], [1, 0, 1, 1], [1, 0, 1, 1], [1, 0, 1, 1], [1, 0, 0, 1], [1, 0, 1, 1], [1, 0, 0, 1]]
-def tcp_class_mismatches : List Nat := [2048]
+def tcp_class_mismatches : List Nat := []
 def tcp_small_frame : Nat := 2048
 def tcp_write_wait_ms : Nat := 2000
 def wg_timeout_ms : Nat := 15000
